@@ -127,6 +127,8 @@ class Run:
         self.cls = None
         self.running = []        # (activation id, group) of the callbacks currently between begin and end
         self.overlap = 0         # times a callback began while one of another activation / group was running
+        self.tags = {}           # id(model) -> tag of machines other than the scenario's own
+        self.mute_tags = {99}    # tags whose callbacks are not logged (decoys, C16's unrelated machines)
         self.group_of = {}
         for t in sc["trans"]:
             for key in ("val", "before", "on", "after"):
@@ -157,6 +159,7 @@ class Run:
 
 RUN = None
 BETWEEN = None
+WRAP = None          # C16: run each operation from inside a callback of an unrelated machine
 DEFAULT_SCRIPT = {"a": [], "r": None}
 
 
@@ -246,7 +249,7 @@ GUARD_NAMES_CACHE = {}
 
 def guard_names(sc):
     g = set()
-    for t in sc["trans"]:
+    for t in sc["trans"] + ([sc["any_render"]] if sc.get("any_render") else []):
         for nm, _ in t["cond"]:
             g.add(tuple(nm))
     return g
@@ -359,7 +362,8 @@ def render_source(sc):
         return all(t[k] == u[k] for k in ("ev", "int", "val", "cond", "before", "on", "after"))
 
     temps = style in ("assign", "event_ctor")
-    mixed = sc.get("mixed") if style == "mixed" else None     # per transition: 1 = event by attribute
+    mixed = list(sc.get("mixed")) if style == "mixed" else None     # per transition: 1 = event by attribute
+    heads = []
     j = 0
     trs = sc["trans"]
     while j < len(trs):
@@ -373,6 +377,10 @@ def render_source(sc):
                    and trs[j + len(group)]["s"] not in [g["s"] for g in group]):
                 group.append(trs[j + len(group)])
         kw = kwargs_of(t)
+        heads.append(j)
+        if mixed is not None:
+            for i in range(1, len(group)):
+                mixed[j + i] = mixed[j]           # one call, one way of naming its event
         if mixed is not None and not mixed[j]:
             kw = ["event=" + repr(" ".join(evname(e) for e in t["ev"]))] + kw
         if len(group) > 1 and tstyle == "multi":
@@ -390,11 +398,11 @@ def render_source(sc):
     if mixed is not None:
         # the same event is attached with event= on some transitions and by class attribute on others
         for e in used_events:
-            via_attr = [f"tr{j}" for j, t in enumerate(trs) if mixed[j] and e in t["ev"]]
+            via_attr = [f"tr{j}" for j, t in enumerate(trs) if j in heads and mixed[j] and e in t["ev"]]
             if via_attr:
                 body.append(f"    {evname(e)} = " + " | ".join(via_attr))
         if any(mixed):
-            body.append("    del " + ", ".join(f"tr{j}" for j in range(len(trs)) if mixed[j]))
+            body.append("    del " + ", ".join(f"tr{j}" for j in range(len(trs)) if j in heads and mixed[j]))
     if style == "assign":
         # event attributes in index order: `go = tr0 | tr3`, then drop the helper names
         for e in used_events:
@@ -406,6 +414,11 @@ def render_source(sc):
             tl = " | ".join(f"tr{j}" for j, t in enumerate(trs) if e in t["ev"])
             body.append(f"    {evname(e)} = Event({tl}, name={evname(e)!r})")
         body.append("    del " + ", ".join(f"tr{j}" for j in range(len(trs))))
+    if sc.get("any_render"):
+        # one transition from every non-final state, written as target.from_.any(...) under its own event
+        a = sc["any_render"]
+        kw_any = [k for k in kwargs_of(a) if not k.startswith("event=")]
+        body.append(f"    {evname(a['ev'][0])} = {S(a['t'])}.from_.any({', '.join(kw_any)})")
     out[0] = "from statemachine import " + ", ".join(sorted(imports - {"States"}))
     if "States" in imports:
         pre.insert(0, "from statemachine.states import States")
@@ -625,15 +638,38 @@ def run_impl(sc):
                     return None
                 raise ValueError(op)
 
+            decoys = []
+
+            def make_decoys(k):
+                """other instances of the same class, over their own models, with their own start_value:
+                constructed (and left alone) before operation k; nothing of theirs is logged"""
+                for when, start in sc.get("decoys", []):
+                    if when != k:
+                        continue
+                    mdl = ns["Mdl"]()
+                    R.tags[id(mdl)] = 99
+                    try:
+                        with warnings.catch_warnings():
+                            warnings.simplefilter("ignore")
+                            kw = {} if start is None else {"start_value": state_value(sc, start)}
+                            d = ns["M"](mdl, **kw)
+                            decoys.append((mdl, d))
+                            if not sc.get("async") and driver != "loop":
+                                d.activate_initial_state()
+                    except Exception:  # noqa: BLE001 - the decoy's own failures are not the scenario's business
+                        decoys.append((mdl, None))
+
             if BETWEEN is not None:
                 BETWEEN(ns, 0)                    # unrelated activity before the first operation (C16)
-            for op in sc["ops"]:
+            for k_op, op in enumerate(sc["ops"]):
+                R.log = []
+                make_decoys(k_op)
                 R.log = []
                 try:
                     if driver == "threads":
                         r = workers.call(len(obs) % 3, lambda op=op: step(op))
                     else:
-                        r = step(op)
+                        r = step(op) if WRAP is None else WRAP(ns, lambda op=op: step(op))
                         if driver == "loop" and (asyncio.iscoroutine(r) or isinstance(r, asyncio.Future)):
                             r = await r
                     out = ["v", to_json(r)]
